@@ -7,6 +7,7 @@
 import Saltpack.Model.Msgpack
 import Saltpack.Model.Packets
 import Saltpack.Model.Wire
+import Saltpack.Proofs.Digits
 
 namespace Saltpack.Proofs
 open Saltpack Saltpack.Msgpack
@@ -21,62 +22,445 @@ inductive ValWF : Val → Prop where
   | str (b : Bytes) : b.length < 2 ^ 32 → ValWF (.str b)
   | arr (l : List Val) : l.length < 2 ^ 32 → (∀ v ∈ l, ValWF v) → ValWF (.arr l)
 
-/-- size-independent statement: with enough fuel, parsing `encode v ++ rest`
-    yields `v` and leaves `rest`. -/
-theorem parse_encode (v : Val) (hv : ValWF v) (rest : Bytes) (fuel : Nat)
-    (hf : 2 * (encode v).length ≤ fuel) :
-    parse fuel (encode v ++ rest) = .ok (v, rest) := by
-  sorry
+/-! ### helper lemmas: one per descriptor byte, then one per encoder -/
 
-theorem parse1_encode (v : Val) (hv : ValWF v) (rest : Bytes) :
-    parse1 (encode v ++ rest) = .ok (v, rest) := by
-  sorry
+namespace MsgpackRT
 
-/-- a concatenation of encoded objects parses back into exactly those objects,
-    with a clean end -/
-theorem parseAll_encode (vs : List Val) (hv : ∀ v ∈ vs, ValWF v) (fuel : Nat)
-    (hf : (vs.flatMap encode).length < fuel) :
-    parseAll fuel (vs.flatMap encode) = (vs, none) := by
-  sorry
+theorem parse_c0 (fuel : Nat) (rest : Bytes) : parse (fuel + 1) (0xc0 :: rest) = .ok (.nil, rest) := by
+  rw [parse]; simp
+theorem parse_c2 (fuel : Nat) (rest : Bytes) : parse (fuel + 1) (0xc2 :: rest) = .ok (.bool false, rest) := by
+  rw [parse]; simp
+theorem parse_c3 (fuel : Nat) (rest : Bytes) : parse (fuel + 1) (0xc3 :: rest) = .ok (.bool true, rest) := by
+  rw [parse]; simp
+theorem parse_c4 (fuel : Nat) (rest : Bytes) : parse (fuel + 1) (0xc4 :: rest) = lenBin 1 .bin rest := by
+  rw [parse]; simp
+theorem parse_c5 (fuel : Nat) (rest : Bytes) : parse (fuel + 1) (0xc5 :: rest) = lenBin 2 .bin rest := by
+  rw [parse]; simp
+theorem parse_c6 (fuel : Nat) (rest : Bytes) : parse (fuel + 1) (0xc6 :: rest) = lenBin 4 .bin rest := by
+  rw [parse]; simp
+theorem parse_d9 (fuel : Nat) (rest : Bytes) : parse (fuel + 1) (0xd9 :: rest) = lenBin 1 .str rest := by
+  rw [parse]; simp
+theorem parse_da (fuel : Nat) (rest : Bytes) : parse (fuel + 1) (0xda :: rest) = lenBin 2 .str rest := by
+  rw [parse]; simp
+theorem parse_db (fuel : Nat) (rest : Bytes) : parse (fuel + 1) (0xdb :: rest) = lenBin 4 .str rest := by
+  rw [parse]; simp
+
+theorem parse_cc (fuel : Nat) (rest r : Bytes) (n : Nat) (h : readLen 1 rest = .ok (n, r)) :
+    parse (fuel + 1) (0xcc :: rest) = .ok (.int n, r) := by
+  rw [parse]; simp [h]
+theorem parse_cd (fuel : Nat) (rest r : Bytes) (n : Nat) (h : readLen 2 rest = .ok (n, r)) :
+    parse (fuel + 1) (0xcd :: rest) = .ok (.int n, r) := by
+  rw [parse]; simp [h]
+theorem parse_ce (fuel : Nat) (rest r : Bytes) (n : Nat) (h : readLen 4 rest = .ok (n, r)) :
+    parse (fuel + 1) (0xce :: rest) = .ok (.int n, r) := by
+  rw [parse]; simp [h]
+theorem parse_cf (fuel : Nat) (rest r : Bytes) (n : Nat) (h : readLen 8 rest = .ok (n, r)) :
+    parse (fuel + 1) (0xcf :: rest) = .ok (.int n, r) := by
+  rw [parse]; simp [h]
+
+theorem parse_d0 (fuel : Nat) (rest r : Bytes) (n : Nat) (h : readLen 1 rest = .ok (n, r)) :
+    parse (fuel + 1) (0xd0 :: rest) = .ok (.int (signedOf 8 n), r) := by
+  rw [parse]; simp [h]
+theorem parse_d1 (fuel : Nat) (rest r : Bytes) (n : Nat) (h : readLen 2 rest = .ok (n, r)) :
+    parse (fuel + 1) (0xd1 :: rest) = .ok (.int (signedOf 16 n), r) := by
+  rw [parse]; simp [h]
+theorem parse_d2 (fuel : Nat) (rest r : Bytes) (n : Nat) (h : readLen 4 rest = .ok (n, r)) :
+    parse (fuel + 1) (0xd2 :: rest) = .ok (.int (signedOf 32 n), r) := by
+  rw [parse]; simp [h]
+theorem parse_d3 (fuel : Nat) (rest r : Bytes) (n : Nat) (h : readLen 8 rest = .ok (n, r)) :
+    parse (fuel + 1) (0xd3 :: rest) = .ok (.int (signedOf 64 n), r) := by
+  rw [parse]; simp [h]
+
+theorem parse_dc (fuel : Nat) (rest r r' : Bytes) (n : Nat) (l : List Val)
+    (h : readLen 2 rest = .ok (n, r)) (h' : parseArr fuel n r = .ok (l, r')) :
+    parse (fuel + 1) (0xdc :: rest) = .ok (.arr l, r') := by
+  rw [parse]; simp [h, h']
+theorem parse_dd (fuel : Nat) (rest r r' : Bytes) (n : Nat) (l : List Val)
+    (h : readLen 4 rest = .ok (n, r)) (h' : parseArr fuel n r = .ok (l, r')) :
+    parse (fuel + 1) (0xdd :: rest) = .ok (.arr l, r') := by
+  rw [parse]; simp [h, h']
+
+theorem parse_posfix (fuel : Nat) (t : UInt8) (rest : Bytes) (h : t.toNat < 0x80) :
+    parse (fuel + 1) (t :: rest) = .ok (.int t.toNat, rest) := by
+  rw [parse]
+  simp [h]
+
+theorem parse_negfix (fuel : Nat) (t : UInt8) (rest : Bytes) (h : 0xe0 ≤ t.toNat) :
+    parse (fuel + 1) (t :: rest) = .ok (.int ((t.toNat : Int) - 256), rest) := by
+  rw [parse]
+  simp only []
+  repeat (first | rw [if_neg (by omega)] | rw [if_pos (by omega)])
+
+theorem parse_fixarr (fuel : Nat) (t : UInt8) (rest r : Bytes) (l : List Val)
+    (h : 0x90 ≤ t.toNat) (h' : t.toNat < 0xa0)
+    (hp : parseArr fuel (t.toNat - 0x90) rest = .ok (l, r)) :
+    parse (fuel + 1) (t :: rest) = .ok (.arr l, r) := by
+  rw [parse]
+  simp only []
+  repeat (first | rw [if_neg (by omega)] | rw [if_pos (by omega)])
+  rw [hp]
+
+theorem parse_fixstr (fuel : Nat) (t : UInt8) (rest r s : Bytes)
+    (h : 0xa0 ≤ t.toNat) (h' : t.toNat < 0xc0)
+    (hp : takeN (t.toNat - 0xa0) rest = .ok (s, r)) :
+    parse (fuel + 1) (t :: rest) = .ok (.str s, r) := by
+  rw [parse]
+  simp only []
+  repeat (first | rw [if_neg (by omega)] | rw [if_pos (by omega)])
+  rw [hp]
+theorem toNat_ofNat_lt (n : Nat) (h : n < 256) : (UInt8.ofNat n).toNat = n := by
+  simp [UInt8.toNat_ofNat']
+  omega
+
+theorem beN_one (n : Nat) (h : n < 256) : beN 1 n = [UInt8.ofNat n] := by
+  simp [beN, bytesOfNat, digitsOfNat, Nat.mod_eq_of_lt h]
+
+theorem beN_length (w n : Nat) : (beN w n).length = w := bytesOfNat_length w n
+
+theorem takeN_append (s r : Bytes) : takeN s.length (s ++ r) = .ok (s, r) := by
+  simp [takeN]
+
+theorem readLen_beN (w n : Nat) (x : Bytes) (h : n < 256 ^ w) :
+    readLen w (beN w n ++ x) = .ok (n, x) := by
+  have h1 := takeN_append (beN w n) x
+  rw [beN_length] at h1
+  simp only [readLen, h1]
+  rw [beN, natOfBytes_bytesOfNat, Nat.mod_eq_of_lt h]
+
+theorem lenBin_beN (w : Nat) (mk : Bytes → Val) (s r : Bytes) (h : s.length < 256 ^ w) :
+    lenBin w mk (beN w s.length ++ (s ++ r)) = .ok (mk s, r) := by
+  simp only [lenBin, readLen_beN w s.length (s ++ r) h, takeN_append]
+
+theorem encArrayHdr_pos (n : Nat) : 1 ≤ (encArrayHdr n).length := by
+  unfold encArrayHdr; repeat' split
+  all_goals simp
+
+theorem encBinHdr_pos (n : Nat) : 1 ≤ (encBinHdr n).length := by
+  unfold encBinHdr; repeat' split
+  all_goals simp
+
+theorem encStrHdr_pos (n : Nat) : 1 ≤ (encStrHdr n).length := by
+  unfold encStrHdr; repeat' split
+  all_goals simp
+
+theorem encUInt_pos (n : Nat) : 1 ≤ (encUInt n).length := by
+  unfold encUInt; repeat' split
+  all_goals simp
+
+theorem encInt_pos (i : Int) : 1 ≤ (encInt i).length := by
+  unfold encInt; repeat' split
+  all_goals first | exact encUInt_pos _ | simp
+
+theorem encode_pos (v : Val) : 1 ≤ (encode v).length := by
+  cases v with
+  | nil => simp [encode, encNil]
+  | bool b => simp [encode, encBool]
+  | int i => rw [encode]; exact encInt_pos i
+  | bin b => rw [encode, encBin, List.length_append]; have := encBinHdr_pos b.length; omega
+  | str b => rw [encode, encStr, List.length_append]; have := encStrHdr_pos b.length; omega
+  | arr l => rw [encode, List.length_append]; have := encArrayHdr_pos l.length; omega
+  | map l => simp [encode]
+  | ext t b => simp [encode, encNil]
+  | float r => simp [encode]
+
+theorem parse_encBin (b : Bytes) (h : b.length < 2 ^ 32) (rest : Bytes) (fuel : Nat) :
+    parse (fuel + 1) (encBin b ++ rest) = .ok (.bin b, rest) := by
+  unfold encBin encBinHdr
+  split
+  · rename_i h1
+    have : [0xc4, UInt8.ofNat b.length] ++ b ++ rest = 0xc4 :: (beN 1 b.length ++ (b ++ rest)) := by
+      rw [beN_one _ h1]; simp
+    rw [this, parse_c4, lenBin_beN _ _ _ _ (by omega)]
+  · split
+    · rename_i h1 h2
+      have : (0xc5 :: beN 2 b.length) ++ b ++ rest = 0xc5 :: (beN 2 b.length ++ (b ++ rest)) := by simp
+      rw [this, parse_c5, lenBin_beN _ _ _ _ (by omega)]
+    · have : (0xc6 :: beN 4 b.length) ++ b ++ rest = 0xc6 :: (beN 4 b.length ++ (b ++ rest)) := by simp
+      rw [this, parse_c6, lenBin_beN _ _ _ _ (by omega)]
+
+theorem parse_encStr (b : Bytes) (h : b.length < 2 ^ 32) (rest : Bytes) (fuel : Nat) :
+    parse (fuel + 1) (encStr b ++ rest) = .ok (.str b, rest) := by
+  unfold encStr encStrHdr
+  split
+  · rename_i h1
+    have ht : (UInt8.ofNat (0xa0 + b.length)).toNat = 0xa0 + b.length := toNat_ofNat_lt _ (by omega)
+    have : [UInt8.ofNat (0xa0 + b.length)] ++ b ++ rest = UInt8.ofNat (0xa0 + b.length) :: (b ++ rest) := by simp
+    rw [this]
+    apply parse_fixstr
+    · omega
+    · omega
+    · rw [ht, Nat.add_sub_cancel_left, takeN_append]
+  · split
+    · rename_i h1 h2
+      have : [0xd9, UInt8.ofNat b.length] ++ b ++ rest = 0xd9 :: (beN 1 b.length ++ (b ++ rest)) := by
+        rw [beN_one _ h2]; simp
+      rw [this, parse_d9, lenBin_beN _ _ _ _ (by omega)]
+    · split
+      · have : (0xda :: beN 2 b.length) ++ b ++ rest = 0xda :: (beN 2 b.length ++ (b ++ rest)) := by simp
+        rw [this, parse_da, lenBin_beN _ _ _ _ (by omega)]
+      · have : (0xdb :: beN 4 b.length) ++ b ++ rest = 0xdb :: (beN 4 b.length ++ (b ++ rest)) := by simp
+        rw [this, parse_db, lenBin_beN _ _ _ _ (by omega)]
+
+theorem parse_encUInt (n : Nat) (h : n < 2 ^ 64) (rest : Bytes) (fuel : Nat) :
+    parse (fuel + 1) (encUInt n ++ rest) = .ok (.int n, rest) := by
+  unfold encUInt
+  split
+  · rename_i h1
+    have ht : (UInt8.ofNat n).toNat = n := toNat_ofNat_lt _ (by omega)
+    have := parse_posfix fuel (UInt8.ofNat n) rest (by omega)
+    rw [ht] at this
+    exact this
+  · split
+    · rename_i h1 h2
+      have : [0xcc, UInt8.ofNat n] ++ rest = 0xcc :: (beN 1 n ++ rest) := by
+        rw [beN_one _ h2]; simp
+      rw [this]
+      exact parse_cc _ _ _ _ (readLen_beN 1 n rest (by omega))
+    · split
+      · exact parse_cd _ _ _ _ (readLen_beN 2 n rest (by omega))
+      · split
+        · exact parse_ce _ _ _ _ (readLen_beN 4 n rest (by omega))
+        · exact parse_cf _ _ _ _ (readLen_beN 8 n rest (by omega))
+
+theorem signedOf_8 (m : Nat) (h1 : 1 ≤ m) (h2 : m ≤ 128) : signedOf 8 (256 - m) = -(m : Int) := by
+  simp only [signedOf, Nat.reduceSub, Nat.reducePow]
+  rw [if_neg (by omega)]; omega
+theorem signedOf_16 (m : Nat) (h1 : 1 ≤ m) (h2 : m ≤ 32768) : signedOf 16 (65536 - m) = -(m : Int) := by
+  simp only [signedOf, Nat.reduceSub, Nat.reducePow]
+  rw [if_neg (by omega)]; omega
+theorem signedOf_32 (m : Nat) (h1 : 1 ≤ m) (h2 : m ≤ 2147483648) :
+    signedOf 32 (4294967296 - m) = -(m : Int) := by
+  simp only [signedOf, Nat.reduceSub, Nat.reducePow]
+  rw [if_neg (by omega)]; omega
+theorem signedOf_64 (m : Nat) (h1 : 1 ≤ m) (h2 : m ≤ 9223372036854775808) :
+    signedOf 64 (18446744073709551616 - m) = -(m : Int) := by
+  simp only [signedOf, Nat.reduceSub, Nat.reducePow]
+  rw [if_neg (by omega)]; omega
+
+theorem parse_encInt (i : Int) (hlo : -(2 ^ 63 : Int) ≤ i) (hhi : i < (2 ^ 64 : Int)) (rest : Bytes) (fuel : Nat) :
+    parse (fuel + 1) (encInt i ++ rest) = .ok (.int i, rest) := by
+  unfold encInt
+  split
+  · rename_i h0
+    have := parse_encUInt i.toNat (by omega) rest fuel
+    rw [Int.toNat_of_nonneg h0] at this
+    exact this
+  · rename_i h0
+    generalize hm : (-i).toNat = m
+    have hi : i = -(m : Int) := by omega
+    split
+    · have ht : (UInt8.ofNat (256 - m)).toNat = 256 - m := toNat_ofNat_lt _ (by omega)
+      have := parse_negfix fuel (UInt8.ofNat (256 - m)) rest (by omega)
+      rw [ht] at this
+      have e : (((256 - m : Nat) : Int) - 256) = i := by omega
+      rw [e] at this
+      exact this
+    · split
+      · have : [0xd0, UInt8.ofNat (256 - m)] ++ rest = 0xd0 :: (beN 1 (256 - m) ++ rest) := by
+          rw [beN_one _ (by omega)]; simp
+        rw [this, parse_d0 _ _ _ _ (readLen_beN 1 (256 - m) rest (by omega)),
+          signedOf_8 m (by omega) (by omega), hi]
+      · split
+        · rw [show (0xd1 :: beN 2 (65536 - m)) ++ rest = 0xd1 :: (beN 2 (65536 - m) ++ rest) from rfl,
+            parse_d1 _ _ _ _ (readLen_beN 2 (65536 - m) rest (by omega)),
+            signedOf_16 m (by omega) (by omega), hi]
+        · split
+          · rw [show (0xd2 :: beN 4 (4294967296 - m)) ++ rest = 0xd2 :: (beN 4 (4294967296 - m) ++ rest) from rfl,
+              parse_d2 _ _ _ _ (readLen_beN 4 (4294967296 - m) rest (by omega)),
+              signedOf_32 m (by omega) (by omega), hi]
+          · rw [show (0xd3 :: beN 8 (18446744073709551616 - m)) ++ rest
+                = 0xd3 :: (beN 8 (18446744073709551616 - m) ++ rest) from rfl,
+              parse_d3 _ _ _ _ (readLen_beN 8 (18446744073709551616 - m) rest (by omega)),
+              signedOf_64 m (by omega) (by omega), hi]
+
+theorem parse_arrHdr (n : Nat) (hn : n < 2 ^ 32) (fuel : Nat) (r r' : Bytes) (l : List Val)
+    (h : parseArr fuel n r = .ok (l, r')) :
+    parse (fuel + 1) (encArrayHdr n ++ r) = .ok (.arr l, r') := by
+  unfold encArrayHdr
+  split
+  · have ht : (UInt8.ofNat (0x90 + n)).toNat = 0x90 + n := toNat_ofNat_lt _ (by omega)
+    apply parse_fixarr
+    · omega
+    · omega
+    · rw [ht, Nat.add_sub_cancel_left]; exact h
+  · split
+    · exact parse_dc _ _ _ _ _ _ (readLen_beN 2 n r (by omega)) h
+    · exact parse_dd _ _ _ _ _ _ (readLen_beN 4 n r (by omega)) h
+
+theorem encodeList_nil : encode.encodeList [] = [] := by rw [encode.encodeList]
+theorem encodeList_cons (v : Val) (vs : List Val) :
+    encode.encodeList (v :: vs) = encode v ++ encode.encodeList vs := by rw [encode.encodeList]
+
+mutual
+theorem parse_encode_aux : (v : Val) → ValWF v → ∀ (rest : Bytes) (fuel : Nat),
+    2 * (encode v).length ≤ fuel → parse fuel (encode v ++ rest) = .ok (v, rest)
+  | .nil, _, rest, fuel, hf => by
+    have := encode_pos .nil
+    obtain ⟨f, rfl⟩ : ∃ f, fuel = f + 1 := ⟨fuel - 1, by omega⟩
+    rw [encode]; exact parse_c0 f rest
+  | .bool b, _, rest, fuel, hf => by
+    have := encode_pos (.bool b)
+    obtain ⟨f, rfl⟩ : ∃ f, fuel = f + 1 := ⟨fuel - 1, by omega⟩
+    rw [encode, encBool]
+    cases b
+    · exact parse_c2 f rest
+    · exact parse_c3 f rest
+  | .int i, hv, rest, fuel, hf => by
+    have := encode_pos (.int i)
+    obtain ⟨f, rfl⟩ : ∃ f, fuel = f + 1 := ⟨fuel - 1, by omega⟩
+    rw [encode]
+    cases hv with
+    | int _ hlo hhi => exact parse_encInt i hlo hhi rest f
+  | .bin b, hv, rest, fuel, hf => by
+    have := encode_pos (.bin b)
+    obtain ⟨f, rfl⟩ : ∃ f, fuel = f + 1 := ⟨fuel - 1, by omega⟩
+    rw [encode]
+    cases hv with
+    | bin _ h => exact parse_encBin b h rest f
+  | .str b, hv, rest, fuel, hf => by
+    have := encode_pos (.str b)
+    obtain ⟨f, rfl⟩ : ∃ f, fuel = f + 1 := ⟨fuel - 1, by omega⟩
+    rw [encode]
+    cases hv with
+    | str _ h => exact parse_encStr b h rest f
+  | .arr l, hv, rest, fuel, hf => by
+    have hp := encArrayHdr_pos l.length
+    rw [encode, List.length_append] at hf
+    obtain ⟨f, rfl⟩ : ∃ f, fuel = f + 1 := ⟨fuel - 1, by omega⟩
+    rw [encode, List.append_assoc]
+    cases hv with
+    | arr _ hl hall =>
+      exact parse_arrHdr l.length hl f _ rest l (parseArr_encodeList l hall rest f (by omega))
+  | .map _, hv, _, _, _ => by cases hv
+  | .ext _ _, hv, _, _, _ => by cases hv
+  | .float _, hv, _, _, _ => by cases hv
+theorem parseArr_encodeList : (l : List Val) → (∀ v ∈ l, ValWF v) → ∀ (rest : Bytes) (fuel : Nat),
+    2 * (encode.encodeList l).length + 1 ≤ fuel →
+    parseArr fuel l.length (encode.encodeList l ++ rest) = .ok (l, rest)
+  | [], _, rest, fuel, hf => by
+    obtain ⟨f, rfl⟩ : ∃ f, fuel = f + 1 := ⟨fuel - 1, by omega⟩
+    rw [encodeList_nil, List.length_nil, parseArr]
+    rfl
+  | v :: vs, hall, rest, fuel, hf => by
+    have hp := encode_pos v
+    rw [encodeList_cons, List.length_append] at hf
+    obtain ⟨f, rfl⟩ : ∃ f, fuel = f + 1 := ⟨fuel - 1, by omega⟩
+    rw [encodeList_cons, List.length_cons, parseArr, List.append_assoc,
+      parse_encode_aux v (hall v (by simp)) _ f (by omega)]
+    simp only []
+    rw [parseArr_encodeList vs (fun x hx => hall x (by simp [hx])) rest f (by omega)]
+end
+
+end MsgpackRT
+open MsgpackRT
+
+/-! ### the round trip -/
 
 /-- `encode` never produces the empty string -/
 theorem encode_ne_nil (v : Val) : encode v ≠ [] := by
-  sorry
+  intro h
+  have := encode_pos v
+  rw [h] at this
+  simp at this
+
+
+
+theorem parse_encode (v : Val) (hv : ValWF v) (rest : Bytes) (fuel : Nat)
+    (hf : 2 * (encode v).length ≤ fuel) :
+    parse fuel (encode v ++ rest) = .ok (v, rest) :=
+  parse_encode_aux v hv rest fuel hf
+
+theorem parse1_encode (v : Val) (hv : ValWF v) (rest : Bytes) :
+    parse1 (encode v ++ rest) = .ok (v, rest) := by
+  unfold parse1
+  apply parse_encode v hv
+  rw [List.length_append]
+  omega
+
+theorem parseAll_encode (vs : List Val) (hv : ∀ v ∈ vs, ValWF v) (fuel : Nat)
+    (hf : (vs.flatMap encode).length < fuel) :
+    parseAll fuel (vs.flatMap encode) = (vs, none) := by
+  induction vs generalizing fuel with
+  | nil =>
+    obtain ⟨f, rfl⟩ : ∃ f, fuel = f + 1 := ⟨fuel - 1, by omega⟩
+    simp [parseAll]
+  | cons v vs ih =>
+    obtain ⟨f, rfl⟩ : ∃ f, fuel = f + 1 := ⟨fuel - 1, by omega⟩
+    have hp := encode_pos v
+    rw [List.flatMap_cons, List.length_append] at hf
+    rw [List.flatMap_cons, parseAll]
+    have hne : (encode v ++ List.flatMap encode vs).isEmpty = false := by
+      rw [List.isEmpty_eq_false_iff]
+      intro h
+      exact encode_ne_nil v (List.append_eq_nil_iff.mp h).1
+    rw [hne, parse1_encode v (hv v (by simp))]
+    simp only [Bool.false_eq_true, if_false]
+    rw [ih (fun x hx => hv x (by simp [hx])) f (by omega)]
 
 /-! ### typed views invert `toVal` -/
 
+theorem viewList_recvKeys (rs : List RecvKeys) :
+    viewList viewRecvKeys (rs.map RecvKeys.toVal) = some rs := by
+  induction rs with
+  | nil => rfl
+  | cons r rs ih =>
+    rw [List.map_cons, viewList, ih]
+    obtain ⟨kid, box⟩ := r
+    cases kid <;> rfl
+
+theorem viewList_auth (auths : List Bytes) (hl : ∀ a ∈ auths, a.length = 32) :
+    viewList viewAuth (auths.map .bin) = some auths := by
+  induction auths with
+  | nil => rfl
+  | cons a as ih =>
+    rw [List.map_cons, viewList, ih (fun x hx => hl x (by simp [hx]))]
+    simp [viewAuth, viewBytes, hl a (by simp)]
+
 theorem viewEncHeader_toVal (h : EncHeader) : viewEncHeader h.toVal = some h := by
-  sorry
+  obtain ⟨fn, ⟨ma, mi⟩, ty, eph, ssb, rs⟩ := h
+  simp [viewEncHeader, EncHeader.toVal, Version.toVal, viewBytes, viewVersion, viewInt, viewList_recvKeys]
 
 theorem viewSigHeader_toVal (h : SigHeader) : viewSigHeader h.toVal = some h := by
-  sorry
+  obtain ⟨fn, ⟨ma, mi⟩, ty, pk, n⟩ := h
+  simp [viewSigHeader, SigHeader.toVal, Version.toVal, viewBytes, viewVersion, viewInt]
 
-/-- V1 / V2 encryption packets (the V1 view ignores the final flag) -/
+theorem msgpack_v2_ne_v1 : v2 ≠ v1 := by decide
+
 theorem viewEncBlock_v2 (auths : List Bytes) (ct : Bytes) (f : Bool)
     (ha : auths ≠ []) (hl : ∀ a ∈ auths, a.length = 32) (val : Val)
     (h : encBlockVal v2 auths ct f = .ok val) :
     viewEncBlock 2 val = some ⟨auths, ct, f⟩ := by
-  sorry
+  have he : auths.isEmpty = false := by simpa using ha
+  simp only [encBlockVal, he, if_neg msgpack_v2_ne_v1, if_true, Bool.false_eq_true, if_false,
+    Except.ok.injEq] at h
+  subst h
+  simp [viewEncBlock, viewBool, viewBytes, viewList_auth auths hl]
 
 theorem viewEncBlock_v1 (auths : List Bytes) (ct : Bytes) (f : Bool)
     (ha : auths ≠ []) (hl : ∀ a ∈ auths, a.length = 32) (val : Val)
     (h : encBlockVal v1 auths ct f = .ok val) :
     viewEncBlock 1 val = some ⟨auths, ct, false⟩ := by
-  sorry
+  have he : auths.isEmpty = false := by simpa using ha
+  simp only [encBlockVal, he, if_true, Bool.false_eq_true, if_false, Except.ok.injEq] at h
+  subst h
+  simp [viewEncBlock, viewBytes, viewList_auth auths hl]
 
 theorem viewSigncryptBlock_val (ct : Bytes) (f : Bool) :
     viewSigncryptBlock (signcryptBlockVal ct f) = some ⟨ct, f⟩ := by
-  sorry
+  simp [viewSigncryptBlock, signcryptBlockVal, viewBytes, viewBool]
 
 theorem viewSigBlock_v2 (sig chunk : Bytes) (f : Bool) (val : Val)
     (h : sigBlockVal v2 sig chunk f = .ok val) : viewSigBlock 2 val = some ⟨sig, chunk, f⟩ := by
-  sorry
+  simp only [sigBlockVal, if_neg msgpack_v2_ne_v1, if_true, Except.ok.injEq] at h
+  subst h
+  simp [viewSigBlock, viewBool, viewBytes]
 
 theorem viewSigBlock_v1 (sig chunk : Bytes) (f : Bool) (val : Val)
     (h : sigBlockVal v1 sig chunk f = .ok val) : viewSigBlock 1 val = some ⟨sig, chunk, false⟩ := by
-  sorry
+  simp only [sigBlockVal, if_true, Except.ok.injEq] at h
+  subst h
+  simp [viewSigBlock, viewBytes]
 
-/-- well-formedness of what the packet structures turn into -/
 theorem encHeader_wf (h : EncHeader)
     (h1 : h.formatName.length < 2 ^ 32) (h2 : h.ephemeral.length < 2 ^ 32)
     (h3 : h.senderSecretbox.length < 2 ^ 32) (h4 : h.receivers.length < 2 ^ 32)
@@ -84,6 +468,34 @@ theorem encHeader_wf (h : EncHeader)
     (h6 : -(2 ^ 63 : Int) ≤ h.version.major ∧ h.version.major < 2 ^ 64)
     (h7 : -(2 ^ 63 : Int) ≤ h.version.minor ∧ h.version.minor < 2 ^ 64)
     (h8 : -(2 ^ 63 : Int) ≤ h.typ ∧ h.typ < 2 ^ 64) : ValWF h.toVal := by
-  sorry
+  unfold EncHeader.toVal
+  apply ValWF.arr _ (by simp)
+  intro v hv
+  simp only [List.mem_cons, List.not_mem_nil, or_false] at hv
+  rcases hv with rfl | rfl | rfl | rfl | rfl | rfl
+  · exact ValWF.str _ h1
+  · unfold Version.toVal
+    apply ValWF.arr _ (by simp)
+    intro v hv
+    simp only [List.mem_cons, List.not_mem_nil, or_false] at hv
+    rcases hv with rfl | rfl
+    · exact ValWF.int _ h6.1 h6.2
+    · exact ValWF.int _ h7.1 h7.2
+  · exact ValWF.int _ h8.1 h8.2
+  · exact ValWF.bin _ h2
+  · exact ValWF.bin _ h3
+  · apply ValWF.arr _ (by rw [List.length_map]; exact h4)
+    intro v hv
+    rw [List.mem_map] at hv
+    obtain ⟨r, hr, rfl⟩ := hv
+    unfold RecvKeys.toVal
+    apply ValWF.arr _ (by simp)
+    intro v hv
+    simp only [List.mem_cons, List.not_mem_nil, or_false] at hv
+    rcases hv with rfl | rfl
+    · cases hk : r.kid with
+      | none => exact ValWF.nil
+      | some k => exact ValWF.bin _ ((h5 r hr).2 k hk)
+    · exact ValWF.bin _ (h5 r hr).1
 
 end Saltpack.Proofs
